@@ -147,11 +147,12 @@ def run_file(path, timeout=600):
     return res
 
 
-def run_shards(name, bodies, extra_imports="", timeout=900, jobs=16):
+def run_shards(name, bodies, extra_imports="", timeout=900, jobs=16, per_shard=48):
     """bodies: list of Coq source chunks, each ending in Eval commands printing (id, out).
-    Returns dict id -> out."""
+    Returns dict id -> out.  At most `per_shard` cases go into one coqc process (bounded memory and
+    output size); `jobs` processes run at a time."""
     os.makedirs(WORK, exist_ok=True)
-    nshard = max(1, min(jobs, len(bodies)))
+    nshard = max(1, min(jobs, len(bodies)), -(-len(bodies) // per_shard))
     shards = [[] for _ in range(nshard)]
     for i, b in enumerate(bodies):
         shards[i % nshard].append(b)
@@ -159,14 +160,21 @@ def run_shards(name, bodies, extra_imports="", timeout=900, jobs=16):
     for i, sh in enumerate(shards):
         if not sh:
             continue
-        path = os.path.join(WORK, "%s_%02d.v" % (name, i))
+        path = os.path.join(WORK, "%s_%03d.v" % (name, i))
         with open(path, "w") as f:
             f.write(HEADER % extra_imports)
             f.write("\n".join(sh))
         paths.append(path)
     out = {}
+    def attempt(p):
+        try:
+            return run_file(p, timeout)
+        except RuntimeError:
+            # a coqc process that died without a Coq error (killed for memory while the machine is busy): once more
+            return run_file(p, timeout)
+
     with cf.ThreadPoolExecutor(max_workers=jobs) as ex:
-        for res in ex.map(lambda p: run_file(p, timeout), paths):
+        for res in ex.map(attempt, paths):
             for r in res:
                 cid, val = r
                 out[cid] = val
